@@ -2,6 +2,7 @@ import Driver.Util
 import Driver.Vec
 import Driver.Queue
 import Driver.PubSub
+import Driver.ShmSets
 import Driver.EventPorts
 import Driver.Blackboard
 import Driver.EventSeq
@@ -52,6 +53,7 @@ def components : List (String × Comp) := [
   ("vec", VecD.comp),
   ("queue", QueueD.comp),
   ("pubsub", PubSubD.comp),
+  ("shmsets", ShmSetsD.comp),
   ("eventports", EventPortsD.comp),
   ("blackboard", BlackboardD.comp),
   ("eventseq", EventSeqD.comp),
